@@ -32,6 +32,9 @@ func concRun(args []string) error {
 		if i%4 == 3 {
 			c.Flushers = 1
 		}
+		if i%3 == 1 {
+			c.CutSession = 1 + i%c.Sessions
+		}
 		if i%5 == 4 {
 			c = concdrv.Cfg{Sessions: 6, Rounds: 120, Storm: true, Seed: c.Seed}
 		}
